@@ -17,12 +17,13 @@ use truc::record::type_resolver::HostTypeResolver;
 use verif_harness::Rng;
 
 /// lab field types: name, size, align, Copy?
-const TYPES: [(&str, usize, usize, bool); 18] = [
+const TYPES: [(&str, usize, usize, bool); 19] = [
     // real std heap types (values carry JSON escapes); no drop logging for them
     ("String", 24, 8, false), ("Box<str>", 16, 8, false), ("Vec<u8>", 24, 8, false),
     ("P1", 1, 1, true), ("P2", 2, 2, true), ("P4", 4, 4, true), ("P8", 8, 8, true), ("P16", 16, 16, true),
     ("P3", 3, 1, true), ("P12", 12, 4, true), ("P24", 24, 8, true), ("Option<P4>", 8, 4, true),
     ("P32", 32, 32, true),
+    ("PNZ", 4, 4, true),
     ("H", 8, 8, false), ("O3", 3, 1, false), ("A16", 16, 16, false), ("Z", 0, 1, false), ("Z8", 0, 8, false),
 ];
 
@@ -342,11 +343,23 @@ fn build_def(rng: &mut Rng, req: &mut String) -> RecordDefinition<NativeDatumDet
         }
         let nadd = if shape == 1 && v == 0 { 17 + rng.below(4) } else if shape == 5 && ((empty_first && v == 0) || (!empty_first && v == 1)) { 0 }
                    else if rng.chance(1, 8) && shape != 5 { 0 } else { 1 + rng.below(5) };
+        // a datum added and cancelled again before the close, recorded with type information that would not hold at the compile
+        // site (a type that does not exist / a wrong alignment): it belongs to no variant and must not reach the generated code
+        if rng.chance(1, 4) {
+            ctr += 1;
+            let name = format!("c{}", ctr);
+            let (ty, size, align) = if rng.chance(1, 2) { ("NoSuchType", 4, 2) } else { ("P8", 8, 4) };
+            let id = b.add_datum_override::<(), _>(name.clone(), DatumDefinitionOverride { type_name: Some(ty.to_string()), size: Some(size), align: Some(align), allow_uninit: Some(false) }).unwrap();
+            writeln!(req, "add {} {} {} {} 0 override", name, ty, size, align).unwrap();
+            let idn: usize = format!("{}", id).parse().unwrap();
+            b.remove_datum(id).unwrap();
+            writeln!(req, "rm {}", idn).unwrap();
+        }
         for _ in 0..nadd {
             let (ty, size, align, copy) = loop {
                 // the Miri lab (VERIF_X_ALLINIT) leans on the over-aligned types: stores into bare locals are where alignment assumptions bite
                 let over = std::env::var("VERIF_X_ALLINIT").is_ok() && rng.chance(1, 3);
-                let t = if over { *rng.pick(&[TYPES[12], TYPES[7], TYPES[15]]) } else if shape == 0 && rng.chance(1, 10) { TYPES[11] } else { TYPES[rng.below(TYPES.len())] };
+                let t = if over { *rng.pick(&[TYPES[12], TYPES[7], TYPES[16]]) } else if shape == 0 && rng.chance(1, 10) { TYPES[11] } else { TYPES[rng.below(TYPES.len())] };
                 if shape == 2 && !t.3 { continue; }
                 if shape == 4 && v > 0 && !t.3 { continue; }
                 if shape == 4 && v == 0 && t.3 && rng.chance(2, 3) { continue; }
